@@ -386,6 +386,7 @@ func checkC13(c *Ctx, r *Report) {
 	acceptedConnNotDropped(c, r, "C13.R5.accepted-conn")
 	r.rule("C13.R4.listener-not-leaked", 3, "a socket ListenAndServe opened is installed in the server or closed before any return")
 	listenerNotLeaked(c, r, "C13.R4.listener-not-leaked")
+	shutdownReleased(c, r, "C13.R2.shutdown-released")
 }
 
 func fnDisplay(f *ssa.Function) string {
@@ -605,6 +606,7 @@ func c13R4(c *Ctx, r *Report, infos map[*ssa.Function]*lockInfo) {
 }
 
 func c13R5(c *Ctx, r *Report) {
+	serveSites := 0
 	for _, name := range []string{"Server.serveTCP", "Server.serveUDP"} {
 		f := c.ssaFunc(name)
 		if f == nil {
@@ -684,18 +686,40 @@ func c13R5(c *Ctx, r *Report) {
 
 		// close(srv.shutdown) after wg.Wait() in a deferred closure
 		problems = nil
-		nClose := 0
+		nClose, nDirect := 0, 0
 		for _, a := range withAnon(f) {
 			allInstrs(a, func(in ssa.Instruction) {
 				call, ok := in.(*ssa.Call)
 				if !ok || calleeNameSSA(&call.Call) != "builtin.close" || !anyIn(sliceOf(call.Call.Args[0]), readsField("Server", "shutdown")) {
 					return
 				}
-				nClose++
 				if a == f {
-					problems = append(problems, fmt.Sprintf("%s: drain channel closed outside the deferred function", c.pos(in.Pos())))
+					// a close on a way out that starts nothing: no handler goroutine can have been started before
+					// it, and the deferred wait-then-close is not installed on that way (no second close)
+					var problem string
+					allInstrs(f, func(other ssa.Instruction) {
+						switch o := other.(type) {
+						case *ssa.Go:
+							if o.Block() == in.Block() || reach(o.Block(), nil, nil)[in.Block()] {
+								problem = fmt.Sprintf("%s: drain channel closed directly where a handler goroutine may be running (go statement at %s); only the deferred wg.Wait(); close may do that", c.pos(in.Pos()), c.pos(o.Pos()))
+							}
+						case *ssa.Defer:
+							if mc, ok := o.Call.Value.(*ssa.MakeClosure); ok {
+								if fn2, ok := mc.Fn.(*ssa.Function); ok && len(callsIn(fn2, "builtin.close")) > 0 {
+									if o.Block() == in.Block() || reach(o.Block(), nil, nil)[in.Block()] || reach(in.Block(), nil, nil)[o.Block()] {
+										problem = fmt.Sprintf("%s: drain channel closed directly on a way on which the deferred close is installed too: it is closed twice (panic)", c.pos(in.Pos()))
+									}
+								}
+							}
+						}
+					})
+					if problem != "" {
+						problems = append(problems, problem)
+					}
+					nDirect++
 					return
 				}
+				nClose++
 				okWait := false
 				for _, w := range callsIn(a, "(sync.WaitGroup).Wait") {
 					if precedes(w.(ssa.Instruction), in) {
@@ -708,8 +732,9 @@ func c13R5(c *Ctx, r *Report) {
 			})
 		}
 		if nClose != 1 {
-			problems = append(problems, fmt.Sprintf("%d close(srv.shutdown) sites, want exactly one", nClose))
+			problems = append(problems, fmt.Sprintf("%d deferred close(srv.shutdown) sites, want exactly one", nClose))
 		}
+		serveSites += nClose + nDirect
 		// the closure is deferred
 		deferred := false
 		allInstrs(f, func(in ssa.Instruction) {
@@ -880,5 +905,5 @@ func c13R5(c *Ctx, r *Report) {
 			}
 		}
 	}
-	r.check(n == 0 && total == 2, "C13.R5.drain", "close(shutdown):sites", "", "only the two serve loops close the drain channel", "%d close(srv.shutdown) sites in methods of Server and %d elsewhere; expected exactly the two serve loops", total, n)
+	r.check(n == 0 && total == serveSites && total >= 2, "C13.R5.drain", "close(shutdown):sites", "", "only the two serve loops close the drain channel", "%d close(srv.shutdown) sites in methods of Server (%d of them in the two serve loops) and %d elsewhere; expected only the serve loops to close it", total, serveSites, n)
 }
